@@ -274,7 +274,7 @@ class InputFile:
                     else:
                         self.ui_json[key]["isValue"] = True
 
-                if (value is None) and (not self.ui_json[key].get("enabled", False)):
+                if (value is None) and (not self.ui_json[key].get("enabled", True)):
                     continue
 
                 self.ui_json[key][member] = value
